@@ -24,17 +24,20 @@ import "github.com/insomniacslk/dhcp/dhcpv4"
 //   - the loop is left only through the read error (the only return), never because of a malformed datagram;
 //   - a datagram that does not decode, or whose peer is not a UDP address, starts no handler;
 //   - a datagram that decodes starts exactly one handler, with the freshly decoded message of this very datagram
-//     (decoded from a buffer allocated in this iteration, so independent of every other datagram's message) and with
+//     (allocated after this datagram was read - own-message - and, by the decoders' no-retention contracts, holding no
+//     reference into the read buffer: so independent of every other datagram's message wherever the buffer lives) and with
 //     the sender as peer, the limited broadcast address standing in for a sender without IP address.
 //@ contract (*Server).Serve
 //@   requires s != nil && s.conn != nil && s.logger != nil && s.Handler != nil
 //@   ensures[returns-on-read-error] result != nil
-//@   after `rbuf := make([]byte, 4096)` let S0 = spawned()
+//@   after `n, peer, err := s.conn.ReadFrom(rbuf)` let S0 = spawned()
+//@   after `n, peer, err := s.conn.ReadFrom(rbuf)` let N0 = allocstamp()
 //@   after `s.logger.Printf("Error parsing DHCPv4 request: %v", err)` assert[undecodable-not-dispatched] spawned() == S0 && !dhcpv4.SpecAcceptV4(string(rbuf[:n]))
 //@   after `s.logger.Printf("Not a UDP connection? Peer is %s", peer)` assert[non-udp-not-dispatched] spawned() == S0
-//@   after `go s.Handler(s.conn, upeer, m)` assert[dispatched-once] spawned() == S0 + 1 && dhcpv4.SpecAcceptV4(string(rbuf[:n])) && m != nil && fresh(m) && fresh(rbuf)
+//@   after `go s.Handler(s.conn, upeer, m)` assert[dispatched-once] spawned() == S0 + 1 && dhcpv4.SpecAcceptV4(string(rbuf[:n])) && m != nil && fresh(m)
 //@   after `go s.Handler(s.conn, upeer, m)` assert[message-of-this-datagram] string(m.TransactionID[:]) == string(rbuf[:n])[4:8] && int(m.OpCode) == int(rbuf[0])
-//@   after `go s.Handler(s.conn, upeer, m)` assert[peer-bcast] peer.(*net.UDPAddr).IP == nil ==> fresh(upeer) && upeer.Port == peer.(*net.UDPAddr).Port
+//@   after `go s.Handler(s.conn, upeer, m)` assert[own-message] ref(m) >= N0 && ref(m.Options) >= N0
+//@   after `go s.Handler(s.conn, upeer, m)` assert[peer-bcast] peer.(*net.UDPAddr).IP == nil ==> fresh(upeer) && ref(upeer) >= N0 && upeer.Port == peer.(*net.UDPAddr).Port
 //@   after `go s.Handler(s.conn, upeer, m)` assert[peer] upeer != nil && typeIs(peer, *net.UDPAddr) && upeer.Port == peer.(*net.UDPAddr).Port
 
 var _ = dhcpv4.SpecAcceptV4
